@@ -184,7 +184,9 @@ impl PrivateConnectToken {
 
         let mut server_addresses_arr = [None; 32];
         for (i, addr) in server_addresses.into_iter().enumerate() {
-            server_addresses_arr[i] = Some(addr);
+            // The token format carries the ip and the port only: an IPv6 scope id or flow label
+            // would be lost when the token is written, keep the token equal to what will be read.
+            server_addresses_arr[i] = Some(SocketAddr::new(addr.ip(), addr.port()));
         }
 
         let client_to_server_key = generate_random_bytes();
